@@ -23,10 +23,12 @@ PROP = dict(
                        "Comdex.C08.auctionClose_stuck_counterexample",
                        "Comdex.C08.reserve_ledger", "Comdex.C08.reserve_halves_step", "Comdex.C08.reserve_halves_drift_counterexample",
                        "Comdex.C08.reserve_ledger_poolsweep_counterexample", "Comdex.C08.beginBlock_dead_after_deletion",
-                       "Comdex.C08.beginBlock_keeps_pending"],
+                       "Comdex.C08.beginBlock_keeps_pending",
+                       "Comdex.C08.books_across_migration", "Comdex.C08.reserve_ledger_across_migration", "Comdex.C08.migration_switches_off",
+                       "Comdex.C08.migration_leak_counterexample"],
     harness_tests=["TestC08"],
     monitors=["total_lend", "total_lend_orphaned", "total_borrowed", "total_stable", "ltv", "ltv_exact", "pool_funds", "pledged_safe",
-              "ids_consistent", "reserve_ledger", "reserve_ledger_poolsweep", "reserve_halves"],
+              "ids_consistent", "reserve_ledger", "reserve_ledger_poolsweep", "reserve_halves", "migration_leak"],
     trusted_base=[KERNEL_TB, HARNESS_TB, DEC_TB,
                   "Model/Lend.lean is hand-written from x/lend/keeper/{keeper,funds,rates,iter}.go and x/liquidationsV2/keeper/liquidate.go:360-404; "
                   "tied by delivering generated messages to the real app (ValidateBasic + MsgServiceRouter handler on a cache context) and comparing "
